@@ -374,6 +374,7 @@ pub fn run_worker(p: &dyn Property, a: &WorkerArgs) -> i32 {
         let mut runner = TestRunner::new(cfg);
         let strat = proptest::collection::vec(proptest::num::u8::ANY, 0..p.max_tape());
         let failed = std::cell::Cell::new(false);
+        let first_violation: std::cell::RefCell<Option<Violation>> = std::cell::RefCell::new(None);
         let ctx_cell = std::cell::RefCell::new(&mut ctx);
         let result = runner.run(&strat, |tape| {
             let mut c = ctx_cell.borrow_mut();
@@ -382,6 +383,15 @@ pub fn run_worker(p: &dyn Property, a: &WorkerArgs) -> i32 {
             match p.judge_tape(&tape, &mut **c) {
                 Ok(()) => Ok(()),
                 Err(v) => {
+                    if !failed.get() {
+                        let mut v0 = v.clone();
+                        if v0.case.get("tape").is_none() {
+                            if let Some(o) = v0.case.as_object_mut() {
+                                o.insert("tape".into(), json!(hex(&tape)));
+                            }
+                        }
+                        *first_violation.borrow_mut() = Some(v0);
+                    }
                     failed.set(true);
                     Err(TestCaseError::fail(v.kind))
                 }
@@ -403,11 +413,23 @@ pub fn run_worker(p: &dyn Property, a: &WorkerArgs) -> i32 {
                         let v = shrink_violation(p, v, &mut ctx);
                         ctx.violations.push(v);
                     }
-                    Ok(()) => ctx.violations.push(Violation::new(
-                        "unstable-failure",
-                        "shrunk tape no longer fails (non-deterministic check?)",
-                        json!({"tape": hex(&tape)}),
-                    )),
+                    Ok(()) => {
+                        // the failure depends on more than the tape (files left by the worker's
+                        // earlier cases, or a non-deterministic program under test): report the
+                        // violation as it was first observed
+                        match first_violation.borrow_mut().take() {
+                            Some(mut v) => {
+                                v.detail = format!("{}\n(note: re-judging the same tape alone did not fail again - the failure depends on the history of earlier cases of this worker, e.g. files they left behind, or the tree under test is non-deterministic)", v.detail);
+                                v.sig.insert("history_dependent".into(), "true".into());
+                                ctx.violations.push(v)
+                            }
+                            None => ctx.violations.push(Violation::new(
+                                "unstable-failure",
+                                "shrunk tape no longer fails (non-deterministic check?)",
+                                json!({"tape": hex(&tape)}),
+                            )),
+                        }
+                    }
                 }
             }
             Err(TestError::Abort(r)) => {
